@@ -302,7 +302,7 @@ def replay(o):
         bad = []
         obs = []
         for j in range(p + 1):
-            M = chk.call(heavy.BasisFunction.speval_matrix, tuple(U), j)
+            M = heavy.BasisFunction.speval_matrix(tuple(U), j)
             for z in range(len(ks) - 1):
                 for tau in (Fraction(1, 3), Fraction(3, 5), Fraction(0), pt.get("tau", Fraction(1, 7))):
                     u = ks[z] + (ks[z + 1] - ks[z]) * tau
@@ -326,9 +326,9 @@ def replay(o):
         exp = spec.basis(U, p, p, t, W)
         try:
             if rational:
-                M = chk.call(heavy.eval_rational_nodes, tuple(U), tuple(W), (t,), p)
+                M = heavy.eval_rational_nodes(tuple(U), tuple(W), (t,), p)
             else:
-                M = chk.call(heavy.eval_spline_nodes, tuple(U), (t,), p)
+                M = heavy.eval_spline_nodes(tuple(U), (t,), p)
             got = [M[i][0] for i in range(len(M))]
         except Exception as e:
             return True, exp, "%s: %s" % (type(e).__name__, e)
@@ -356,7 +356,7 @@ def replay(o):
             P = [pt["P%d_0" % i] for i in range(n)]
         else:
             P = [np.array([pt["P%d_%d" % (i, d)] for d in range(dim)], dtype=object) for i in range(n)]
-        curve = chk.call(curves.Curve, list(U), P, W)
+        curve = curves.Curve(list(U), P, W)
         if pos[0] in ("below", "above"):
             try:
                 v = curve(t)
@@ -368,7 +368,7 @@ def replay(o):
         exp = spec.curve_value(U, p, P, t, W)
         try:
             got = curve(t)
-            seq = chk.call(curve.eval, [t, ks[0], t])
+            seq = curve.eval([t, ks[0], t])
         except Exception as e:
             return True, exp, "%s: %s" % (type(e).__name__, e)
         exp0 = spec.curve_value(U, p, P, ks[0], W)
